@@ -202,15 +202,22 @@ func muxAnimCorpus(r *rand.Rand, n int) []namedFile {
 	var out []namedFile
 	for i := 0; len(out) < n && i < 4*n; i++ {
 		cw, ch := 8+r.Intn(60), 8+r.Intn(60)
+		if i%7 == 3 { // canvas far beyond 16 bits in one direction (the VP8X fields are 24 bits wide)
+			if r.Intn(2) == 0 {
+				cw = pickI(r, 65536, 65537, 70000, 66000+r.Intn(3000))
+			} else {
+				ch = pickI(r, 65536, 65537, 100000, 66000+r.Intn(3000))
+			}
+		}
 		m := mux.NewMuxer()
 		m.SetCanvasSize(cw, ch)
 		m.SetLoopCount(r.Intn(5))
 		nf := 2 + r.Intn(4)
 		ok := true
 		for f := 0; f < nf && ok; f++ {
-			fw, fh := 1+r.Intn(cw), 1+r.Intn(ch)
+			fw, fh := 1+r.Intn(min(cw, 64)), 1+r.Intn(min(ch, 64))
 			if f == 0 && i%2 == 0 { // a small first frame away from the origin
-				fw, fh = 1+r.Intn(max(1, cw/3)), 1+r.Intn(max(1, ch/3))
+				fw, fh = 1+r.Intn(max(1, min(cw, 64)/3)), 1+r.Intn(max(1, min(ch, 64)/3))
 			}
 			ox, oy := 2*r.Intn((cw-fw)/2+1), 2*r.Intn((ch-fh)/2+1)
 			o := webp.DefaultOptions()
